@@ -11,7 +11,7 @@ def server_stubs(pipe=True):
      ("(*github.com/xtaci/smux.Session).Close", "vpSmuxSessionClose"), ("(*github.com/xtaci/smux.Session).IsClosed", "vpSmuxSessionIsClosed"),
      ("(*github.com/xtaci/smux.Session).RemoteAddr", "vpSmuxSessionRemoteAddr"),
      ("(*github.com/xtaci/smux.Stream).Read", "vpStreamRead"), ("(*github.com/xtaci/smux.Stream).Write", "vpStreamWrite"),
-     ("(*github.com/xtaci/smux.Stream).Close", "vpStreamClose"), ("(*github.com/xtaci/smux.Stream).RemoteAddr", "vpStreamRemoteAddr"),
+     ("(*github.com/xtaci/smux.Stream).Close", "vpStreamClose"), ("(*github.com/xtaci/smux.Stream).WriteTo", "vpStreamWriteTo"), ("(*github.com/xtaci/smux.Stream).RemoteAddr", "vpStreamRemoteAddr"),
      ("(*github.com/xtaci/smux.Stream).LocalAddr", "vpStreamLocalAddr"),
      ("github.com/go-chi/chi.NewRouter", "vpChiNewRouter"), ("(*github.com/go-chi/chi.Mux).Use", "vpChiUse"),
      ("(*github.com/go-chi/chi.Mux).HandleFunc", "vpChiHandleFunc"),
